@@ -83,7 +83,10 @@ func (provider *Provider) Layout(name string) (*template.Template, error) {
 	if name == "" {
 		name = goathtml.DefaultLayout
 	}
+	// the cache map is only read under its mutex (a concurrent first use writes it)
+	provider.layoutMutex.Lock()
 	tmpl, ok := provider.layouts[name]
+	provider.layoutMutex.Unlock()
 	if ok {
 		return tmpl, nil
 	}
@@ -139,7 +142,11 @@ func (provider *Provider) View(layoutName, viewName string) (tmpl *template.Temp
 	}
 	key = layoutName + ":" + viewName
 	// check without lock (preformence feature)
-	if tmpl, ok = provider.views[key]; ok {
+	// the cache map is only read under its mutex (a concurrent first use writes it)
+	provider.viewMutex.Lock()
+	tmpl, ok = provider.views[key]
+	provider.viewMutex.Unlock()
+	if ok {
 		return tmpl, nil
 	}
 	return provider.view(layoutName, viewName, key)
